@@ -452,6 +452,25 @@ def library_spellings(tree, stats):
                         gens = [ast.comprehension(target=ast.Name(id="_s", ctx=ast.Store()), iter=src, ifs=[], is_async=0),
                                 ast.comprehension(target=ast.Name(id="_t", ctx=ast.Store()), iter=ast.Name(id="_s", ctx=ast.Load()), ifs=[], is_async=0)]
                     return loc(ast.ListComp(elt=ast.Name(id="_t", ctx=ast.Load()), generators=gens), c)
+            if isinstance(f, ast.Name) and f.id in ("any", "all", "sum", "min", "max", "sorted", "tuple", "set", "frozenset") and len(c.args) >= 1 \
+                    and isinstance(c.args[0], ast.Call) and isinstance(c.args[0].func, ast.Name) and c.args[0].func.id == "map" and len(c.args[0].args) == 2 and not c.args[0].keywords:
+                g = _map_as_generator(c.args[0])
+                if g is not None:
+                    bump("map(f, xs)")
+                    c.args[0] = loc(g, c.args[0])
+            if isinstance(f, ast.Name) and f.id == "all" and len(c.args) == 1 and not c.keywords and isinstance(c.args[0], (ast.GeneratorExp, ast.ListComp)) \
+                    and isinstance(c.args[0].elt, ast.UnaryOp) and isinstance(c.args[0].elt.op, ast.Not):
+                bump("all(not ..)")
+                inner = loc(ast.GeneratorExp(elt=c.args[0].elt.operand, generators=c.args[0].generators), c.args[0])
+                return loc(ast.UnaryOp(op=ast.Not(), operand=ast.Call(func=ast.Name(id="any", ctx=ast.Load()), args=[inner], keywords=[])), c)
+            if isinstance(f, ast.Name) and f.id == "dict" and not c.args and all(k.arg for k in c.keywords):
+                bump("dict(k=v)")
+                return loc(ast.Dict(keys=[ast.Constant(value=k.arg) for k in c.keywords], values=[k.value for k in c.keywords]), c)
+            if isinstance(f, ast.Attribute) and f.attr == "fromkeys" and isinstance(f.value, ast.Name) and f.value.id == "dict" and len(c.args) == 2 and not c.keywords \
+                    and isinstance(c.args[1], ast.Constant):
+                bump("dict.fromkeys")
+                return loc(ast.DictComp(key=ast.Name(id="_k", ctx=ast.Load()), value=c.args[1],
+                                        generators=[ast.comprehension(target=ast.Name(id="_k", ctx=ast.Store()), iter=c.args[0], ifs=[], is_async=0)]), c)
             if isinstance(f, ast.Attribute) and f.attr == "get" and len(c.args) == 2 and not c.keywords and isinstance(c.args[1], ast.Constant) and c.args[1].value is None:
                 bump("get(k, None)")
                 c.args = c.args[:1]         # d.get(k, None) is d.get(k)
@@ -465,6 +484,28 @@ def library_spellings(tree, stats):
                 bump("isinstance(tuple)")
                 return loc(ast.BoolOp(op=ast.Or(), values=[ast.Call(func=ast.Name(id="isinstance", ctx=ast.Load()), args=[copy.deepcopy(c.args[0]), e], keywords=[]) for e in c.args[1].elts]), c)
             return c
+
+        # ---- [f(k, D[k]) for k in D] is [f(k, _v) for k, _v in D.items()]
+        def _comp_items(self, n):
+            self.generic_visit(n)
+            if len(n.generators) == 1:
+                g = n.generators[0]
+                if isinstance(g.target, ast.Name) and _simple_arg(g.iter) and not isinstance(g.iter, ast.Constant):
+                    parts = ([n.key, n.value] if isinstance(n, ast.DictComp) else [n.elt]) + list(g.ifs)
+                    if _items_rewrite(n, g.target, g.iter, parts, count):
+                        g.target = loc(ast.Tuple(elts=[g.target, ast.Name(id="_v", ctx=ast.Store())], ctx=ast.Store()), g.target)
+                        g.iter = loc(ast.Call(func=ast.Attribute(value=g.iter, attr="items", ctx=ast.Load()), args=[], keywords=[]), g.iter)
+            return n
+        visit_ListComp = visit_SetComp = visit_GeneratorExp = visit_DictComp = _comp_items
+
+        # ---- x in [a, b] is x in (a, b): a display written in a membership test is only searched
+        def visit_Compare(self, n):
+            self.generic_visit(n)
+            if len(n.ops) == 1 and isinstance(n.ops[0], (ast.In, ast.NotIn)) and isinstance(n.comparators[0], ast.List) \
+                    and not any(isinstance(e, ast.Starred) for e in n.comparators[0].elts):
+                bump("in [..]")
+                n.comparators[0] = loc(ast.Tuple(elts=n.comparators[0].elts, ctx=ast.Load()), n.comparators[0])
+            return n
 
         # ---- list(X) spelled [*X]; set(X) spelled {*X}
         def visit_List(self, n):
@@ -523,8 +564,129 @@ def library_spellings(tree, stats):
             return loc(ast.JoinedStr(values=merged), n)
     R().visit(tree)
     _guarded_affix_spellings(tree, bump)
+    _len_tests(tree, bump)
     for k, v in count.items():
         stats[f"spelling:{k}"] = stats.get(f"spelling:{k}", 0) + v
+
+
+SIZED_CALLS = {"list", "tuple", "set", "dict", "sorted", "frozenset"}
+
+
+def _sized_expr(e):
+    return isinstance(e, (ast.List, ast.Tuple, ast.Set, ast.Dict, ast.ListComp, ast.SetComp, ast.DictComp)) or \
+        (isinstance(e, ast.Call) and isinstance(e.func, ast.Name) and e.func.id in SIZED_CALLS)
+
+
+def _len_tests(tree, bump):
+    """len(X) == 0 is `not X` (and len(X) != 0 / > 0 / >= 1 is the truth of X) when X is known to be a built-in container: a local all of
+    whose definitions are displays / comprehensions / list()-like calls (or the *args tuple), or a `self` attribute every store of which in
+    its class is one.  Nothing is assumed about other values (None, user objects): there the two tests differ."""
+    class_attr = {}
+    for cls in ast.walk(tree):
+        if isinstance(cls, ast.ClassDef):
+            stores = {}
+            for n in ast.walk(cls):
+                if isinstance(n, ast.Assign):
+                    for t in n.targets:
+                        if isinstance(t, ast.Attribute) and isinstance(t.value, ast.Name) and t.value.id == "self":
+                            stores.setdefault(t.attr, []).append(n.value)
+                elif isinstance(n, (ast.AugAssign, ast.AnnAssign)) and isinstance(n.target, ast.Attribute) and isinstance(n.target.value, ast.Name) and n.target.value.id == "self":
+                    stores.setdefault(n.target.attr, []).append(None)
+            for f in cls.body:
+                if isinstance(f, FUNC):
+                    class_attr[f] = {a for a, vs in stores.items() if vs and all(v is not None and _sized_expr(v) for v in vs)}
+
+    def known(fn, attrs, x):
+        if isinstance(x, ast.Name):
+            if fn.args.vararg and fn.args.vararg.arg == x.id:
+                return not any(isinstance(n, ast.Name) and n.id == x.id and isinstance(n.ctx, ast.Store) for n in ast.walk(fn))
+            if any(a.arg == x.id for a in fn.args.posonlyargs + fn.args.args + fn.args.kwonlyargs) or (fn.args.kwarg and fn.args.kwarg.arg == x.id):
+                return False
+            vals, other = [], False
+            for n in ast.walk(fn):
+                if isinstance(n, ast.Assign):
+                    for t in n.targets:
+                        if isinstance(t, ast.Name) and t.id == x.id:
+                            vals.append(n.value)
+                        elif not isinstance(t, ast.Name) and any(isinstance(y, ast.Name) and y.id == x.id and isinstance(y.ctx, ast.Store) for y in ast.walk(t)):
+                            other = True
+                elif isinstance(n, (ast.For, ast.comprehension)) and any(isinstance(y, ast.Name) and y.id == x.id for y in ast.walk(n.target)):
+                    other = True
+                elif isinstance(n, (ast.AugAssign, ast.NamedExpr)) and isinstance(n.target, ast.Name) and n.target.id == x.id:
+                    other = True
+                elif isinstance(n, (ast.With,)) and any(i.optional_vars is not None and any(isinstance(y, ast.Name) and y.id == x.id for y in ast.walk(i.optional_vars)) for i in n.items):
+                    other = True
+                elif isinstance(n, (ast.Global, ast.Nonlocal)) and x.id in n.names:
+                    other = True
+            return bool(vals) and not other and all(_sized_expr(v) for v in vals)
+        if isinstance(x, ast.Attribute) and isinstance(x.value, ast.Name) and x.value.id == "self":
+            return x.attr in attrs
+        return False
+
+    def top(fn):
+        attrs = class_attr.get(fn, set())
+
+        class L(ast.NodeTransformer):
+            def visit_FunctionDef(self, n):
+                return n if n is not fn else self.generic_visit(n)
+            visit_AsyncFunctionDef = visit_FunctionDef
+
+            def visit_Compare(self, n):
+                self.generic_visit(n)
+                if len(n.ops) == 1 and isinstance(n.left, ast.Call) and isinstance(n.left.func, ast.Name) and n.left.func.id == "len" and len(n.left.args) == 1 \
+                        and not n.left.keywords and isinstance(n.comparators[0], ast.Constant) and type(n.comparators[0].value) is int and known(fn, attrs, n.left.args[0]):
+                    op, k, x = n.ops[0], n.comparators[0].value, n.left.args[0]
+                    empty = (isinstance(op, ast.Eq) and k == 0) or (isinstance(op, ast.Lt) and k == 1) or (isinstance(op, ast.LtE) and k == 0)
+                    nonempty = (isinstance(op, ast.NotEq) and k == 0) or (isinstance(op, ast.Gt) and k == 0) or (isinstance(op, ast.GtE) and k == 1)
+                    if empty:
+                        bump("len(x) == 0")
+                        return loc(ast.UnaryOp(op=ast.Not(), operand=x), n)
+                    if nonempty:
+                        bump("len(x) != 0")
+                        return loc(ast.Call(func=ast.Name(id="bool", ctx=ast.Load()), args=[x], keywords=[]), n)
+                return n
+        L().visit(fn)
+
+        # bool(X) in a boolean position is X
+        class B(ast.NodeTransformer):
+            def unb(self, e):
+                if isinstance(e, ast.Call) and isinstance(e.func, ast.Name) and e.func.id == "bool" and len(e.args) == 1 and not e.keywords and getattr(e, "_synth", True):
+                    return e.args[0]
+                return e
+
+            def visit_If(self, n):
+                self.generic_visit(n)
+                n.test = self.unb(n.test)
+                return n
+            visit_While = visit_IfExp = visit_If
+
+            def visit_UnaryOp(self, n):
+                self.generic_visit(n)
+                if isinstance(n.op, ast.Not):
+                    n.operand = self.unb(n.operand)
+                return n
+
+            def visit_BoolOp(self, n):
+                self.generic_visit(n)
+                return n
+        B().visit(fn)
+    for f in ast.walk(tree):
+        if isinstance(f, FUNC):
+            top(f)
+
+
+def _map_as_generator(m):
+    """map(F, X) consumed on the spot is (F(_m) for _m in X); map(attrgetter("a"), X) is (_m.a for _m in X)."""
+    F, X = m.args
+    var = ast.Name(id="_m", ctx=ast.Load())
+    if isinstance(F, ast.Call) and ast.unparse(F.func) in ("attrgetter", "operator.attrgetter") and len(F.args) == 1 and isinstance(F.args[0], ast.Constant) \
+            and isinstance(F.args[0].value, str) and F.args[0].value.isidentifier() and not F.keywords:
+        elt = ast.Attribute(value=var, attr=F.args[0].value, ctx=ast.Load())
+    elif _simple_arg(F) and not isinstance(F, ast.Constant):
+        elt = ast.Call(func=F, args=[var], keywords=[])
+    else:
+        return None
+    return ast.GeneratorExp(elt=elt, generators=[ast.comprehension(target=ast.Name(id="_m", ctx=ast.Store()), iter=X, ifs=[], is_async=0)])
 
 
 def _guarded_affix_spellings(tree, bump):
@@ -783,6 +945,36 @@ def _walk_same_scope(node):
                 todo.append(c)
 
 
+def _items_rewrite(holder, key, D, parts, counts):
+    """Replace the reads `D[key]` inside `parts` by `_v` when that is all D and key[...] are used for there; -> True when something was replaced."""
+    dtxt, k = ast.unparse(D), key.id
+    hits, bad = [], False
+    for p in parts:
+        for n in ast.walk(p):
+            if isinstance(n, ast.Subscript) and ast.unparse(n.value) == dtxt and isinstance(n.slice, ast.Name) and n.slice.id == k:
+                if isinstance(n.ctx, ast.Load):
+                    hits.append(n)
+                else:
+                    bad = True
+            elif isinstance(n, ast.Name) and n.id == "_v":
+                bad = True
+            elif isinstance(n, ast.Name) and n.id == k and isinstance(n.ctx, (ast.Store, ast.Del)):
+                bad = True
+    if bad or not hits:
+        return False
+    hit_ids = {id(h.value) for h in hits}
+    for p in parts:
+        for n in ast.walk(p):
+            if isinstance(n, (ast.Name, ast.Attribute)) and ast.unparse(n) == dtxt and id(n) not in hit_ids:
+                par_is_hit = False
+                if not par_is_hit:
+                    return False        # D is used in another way inside the loop (mutation, aliasing, another key)
+    for h in hits:
+        _replace_node(holder, h, loc(ast.Name(id="_v", ctx=ast.Load()), h))
+    counts["keys+subscript->items"] = counts.get("keys+subscript->items", 0) + 1
+    return True
+
+
 def canon_block(block, fn, counts):
     i = 0
     while i < len(block):
@@ -797,6 +989,16 @@ def canon_block(block, fn, counts):
                 out.append(loc(ast.Assign(targets=[t], value=ast.Name(id=first.id, ctx=ast.Load())), st))
             block[i:i + 1] = out
             counts["chained-assignment-split"] = counts.get("chained-assignment-split", 0) + 1
+            continue
+        # X = {..} ; X.update(E)   ->   X = {.., **E}
+        if isinstance(st, ast.Assign) and len(st.targets) == 1 and isinstance(st.targets[0], ast.Name) and isinstance(st.value, ast.Dict) \
+                and isinstance(nxt, ast.Expr) and isinstance(nxt.value, ast.Call) and isinstance(nxt.value.func, ast.Attribute) and nxt.value.func.attr == "update" \
+                and isinstance(nxt.value.func.value, ast.Name) and nxt.value.func.value.id == st.targets[0].id and len(nxt.value.args) == 1 and not nxt.value.keywords \
+                and not any(isinstance(n, ast.Name) and n.id == st.targets[0].id for n in ast.walk(nxt.value.args[0])):
+            st.value.keys.append(None)
+            st.value.values.append(nxt.value.args[0])
+            del block[i + 1]
+            counts["dict+update->display"] = counts.get("dict+update->display", 0) + 1
             continue
         # F = False ; try: BODY ; F = True  finally: if not F: CLEANUP    ->   try: BODY  except BaseException: CLEANUP ; raise
         # (BODY has no return / break / continue, F is used nowhere else: the cleanup runs exactly when BODY raised)
@@ -848,6 +1050,39 @@ def canon_block(block, fn, counts):
                 block[i:i] = [pre]
                 counts["walrus-hoisted"] = counts.get("walrus-hoisted", 0) + 1
                 i += 1
+                continue
+        # index loops:  for i in range(len(L)): T = L[i]; ...  ->  for T in L: ...      (reversed range -> reversed(L)); i used nowhere else, L untouched
+        if isinstance(st, ast.For) and isinstance(st.target, ast.Name) and not st.orelse and st.body and isinstance(st.iter, ast.Call) \
+                and isinstance(st.iter.func, ast.Name) and st.iter.func.id == "range" and not st.iter.keywords:
+            ra = st.iter.args
+            L = None
+            if len(ra) == 1 and isinstance(ra[0], ast.Call) and isinstance(ra[0].func, ast.Name) and ra[0].func.id == "len" and len(ra[0].args) == 1 and _simple_arg(ra[0].args[0]):
+                L, rev = ra[0].args[0], False
+            elif len(ra) == 3 and ast.unparse(ra[1]) == "-1" and ast.unparse(ra[2]) == "-1" and isinstance(ra[0], ast.BinOp) and isinstance(ra[0].op, ast.Sub) \
+                    and ast.unparse(ra[0].right) == "1" and isinstance(ra[0].left, ast.Call) and isinstance(ra[0].left.func, ast.Name) and ra[0].left.func.id == "len" \
+                    and len(ra[0].left.args) == 1 and _simple_arg(ra[0].left.args[0]):
+                L, rev = ra[0].left.args[0], True
+            first = st.body[0]
+            if L is not None and not isinstance(L, ast.Constant) and isinstance(first, ast.Assign) and len(first.targets) == 1 and isinstance(first.value, ast.Subscript) \
+                    and ast.unparse(first.value.value) == ast.unparse(L) and isinstance(first.value.slice, ast.Name) and first.value.slice.id == st.target.id and len(st.body) >= 2:
+                i_uses = sum(1 for b in st.body for n in ast.walk(b) if isinstance(n, ast.Name) and n.id == st.target.id)
+                ltxt = ast.unparse(L)
+                touched = any((isinstance(n, (ast.Name, ast.Attribute)) and ast.unparse(n) == ltxt and (isinstance(getattr(n, "ctx", None), (ast.Store, ast.Del))))
+                              or (isinstance(n, ast.Call) and isinstance(n.func, ast.Attribute) and ast.unparse(n.func.value) == ltxt)
+                              or (isinstance(n, ast.Subscript) and ast.unparse(n.value) == ltxt and isinstance(n.ctx, (ast.Store, ast.Del)))
+                              for b in st.body[1:] for n in ast.walk(b))
+                later = any(isinstance(n, ast.Name) and n.id == st.target.id and isinstance(n.ctx, ast.Load) for b in block[i + 1:] for n in ast.walk(b))
+                if i_uses == 1 and not touched and not later:
+                    st.target = first.targets[0]
+                    st.iter = loc(ast.Call(func=ast.Name(id="reversed", ctx=ast.Load()), args=[L], keywords=[]), st.iter) if rev else L
+                    st.body = st.body[1:]
+                    counts["index-loop->direct"] = counts.get("index-loop->direct", 0) + 1
+                    continue
+        # for k in D: ... D[k] ...   ->   for k, _v in D.items(): ... _v ...      (D untouched in the body, D[k] only read)
+        if isinstance(st, ast.For) and isinstance(st.target, ast.Name) and _simple_arg(st.iter) and not isinstance(st.iter, ast.Constant):
+            if _items_rewrite(st, st.target, st.iter, st.body, counts):
+                st.target = loc(ast.Tuple(elts=[st.target, ast.Name(id="_v", ctx=ast.Store())], ctx=ast.Store()), st.target)
+                st.iter = loc(ast.Call(func=ast.Attribute(value=st.iter, attr="items", ctx=ast.Load()), args=[], keywords=[]), st.iter)
                 continue
         # loop body: `if c: continue` + rest  ->  `if not c: rest`
         if isinstance(st, (ast.For, ast.While)):
@@ -1143,6 +1378,39 @@ def _unroll_literal_comprehensions(fn, counts):
                     return None
             return out
     U().visit(fn)
+
+
+def _nested_defs_as_lambdas(fn, known_nested, counts):
+    """A nested `def g(args): return E` that the reference does not know, referred to exactly once, as a value, later in the same block
+    (nothing in between rebinds a name its defaults read) is the lambda written at that place."""
+    for holder, fld, block in blocks_of(fn):
+        i = 0
+        while i < len(block):
+            g = block[i]
+            i += 1
+            if not (isinstance(g, ast.FunctionDef) and g.name not in known_nested and not g.decorator_list and len(_strip_doc(g.body)) == 1
+                    and isinstance(_strip_doc(g.body)[0], ast.Return) and _strip_doc(g.body)[0].value is not None):
+                continue
+            if any(isinstance(n, (ast.Yield, ast.YieldFrom, ast.Await)) for n in ast.walk(g)) or g.args.posonlyargs:
+                continue
+            uses = [n for n in ast.walk(fn) if isinstance(n, ast.Name) and n.id == g.name]
+            if len(uses) != 1 or not isinstance(uses[0].ctx, ast.Load):
+                continue
+            use = uses[0]
+            where = next((k for k in range(i, len(block)) if any(n is use for n in ast.walk(block[k]))), None)
+            if where is None or isinstance(getattr(use, "_parent_call_func", None), ast.Call):
+                continue
+            if any(isinstance(c, ast.Call) and c.func is use for c in ast.walk(block[where])):
+                continue
+            reads = {n.id for d in g.args.defaults + [d for d in g.args.kw_defaults if d is not None] for n in ast.walk(d) if isinstance(n, ast.Name)}
+            if any(x in reads for b in block[i:where] for x in _stored_names(b)):
+                continue
+            lam = loc(ast.Lambda(args=g.args, body=_strip_doc(g.body)[0].value), use)
+            if not _replace_node(block[where], use, lam):
+                continue
+            block.remove(g)
+            i -= 1
+            counts["nested-def->lambda"] = counts.get("nested-def->lambda", 0) + 1
 
 
 def _single_use_temps(fn, counts):
@@ -1663,6 +1931,7 @@ def normalise(tree, modname, keyword_names=frozenset(), ref=None, stats=None):
                 canon_block(block, fn, stats)
         _global_aliases(fn, stats)
         _merge_accumulators(fn, stats)
+        _nested_defs_as_lambdas(fn, set(ref.get("nested", {}).get(q, [])) if known else None or set(), stats) if known else None
         _single_use_temps(fn, stats)
         _unroll_literal_comprehensions(fn, stats)
     roles = ref.get("roles", {})
@@ -1883,6 +2152,56 @@ def undo_function_renames(trees, ref=None, stats=None):
     return renames
 
 
+# ------------------------------------------------------------------------------------------------ annotations, named lambdas
+def strip_annotations(trees, stats=None):
+    """Type hints have no runtime meaning in ptera's own source (nothing reads the annotations of ptera's functions): parameter and
+    return annotations are dropped, `x: T = v` is `x = v`, a bare `x: T` is nothing; `NAME = lambda a: E` is `def NAME(a): return E`
+    (same function up to its __name__).  Done for the whole package before functions are compared with the reference."""
+    stats = stats if stats is not None else {}
+    n_ann = n_lam = 0
+    for tree in trees.values():
+        for n in ast.walk(tree):
+            if isinstance(n, FUNC + (ast.Lambda,)):
+                a = n.args
+                for x in a.posonlyargs + a.args + a.kwonlyargs + [y for y in (a.vararg, a.kwarg) if y]:
+                    if x.annotation is not None:
+                        x.annotation = None
+                        n_ann += 1
+                if isinstance(n, FUNC) and n.returns is not None:
+                    n.returns = None
+                    n_ann += 1
+        for holder in ast.walk(tree):
+            for fld in ("body", "orelse", "finalbody"):
+                block = getattr(holder, fld, None)
+                if not isinstance(block, list) or not block or not isinstance(block[0], ast.stmt):
+                    continue
+                out = []
+                for st in block:
+                    if isinstance(st, ast.AnnAssign):
+                        n_ann += 1
+                        if st.value is not None:
+                            out.append(ast.copy_location(ast.Assign(targets=[st.target], value=st.value), st))
+                        continue
+                    if isinstance(st, ast.Assign) and len(st.targets) == 1 and isinstance(st.targets[0], ast.Name) and isinstance(st.value, ast.Lambda):
+                        lam = st.value
+                        fn = ast.FunctionDef(name=st.targets[0].id, args=lam.args, body=[ast.copy_location(ast.Return(value=lam.body), lam.body)], decorator_list=[],
+                                             returns=None, type_comment=None)
+                        if "type_params" in ast.FunctionDef._fields:
+                            fn.type_params = []
+                        out.append(ast.copy_location(fn, st))
+                        n_lam += 1
+                        continue
+                    out.append(st)
+                if not out:
+                    out = [ast.copy_location(ast.Pass(), block[0])]
+                setattr(holder, fld, out)
+        ast.fix_missing_locations(tree)
+    if n_ann:
+        stats["annotations-dropped"] = stats.get("annotations-dropped", 0) + n_ann
+    if n_lam:
+        stats["named-lambda->def"] = stats.get("named-lambda->def", 0) + n_lam
+
+
 # ------------------------------------------------------------------------------------------------ private call conventions
 def _is_private(name):
     return name.startswith("_") and not (name.startswith("__") and name.endswith("__"))
@@ -2041,8 +2360,13 @@ def build_reference(root):
     ref = {"inventory": inv, "roles": {}, "fingerprints": {q: fingerprint(f) for m, tree in trees.items() for q, f in top_functions(tree, m)},
            "module_names": {m: sorted(module_level_names(tree)) for m, tree in trees.items()},
            "module_values": {m: module_level_values(tree) for m, tree in trees.items()}}
+    strip_annotations(trees)
+    inv = {m: sorted(q for q, _ in top_functions(t, m)) for m, t in trees.items()}
+    ref["inventory"] = inv
+    ref["fingerprints"] = {q: fingerprint(f) for m, tree in trees.items() for q, f in top_functions(tree, m)}
     normalise_private_calls(trees, ref={}, stats={})
     ref["signatures"] = private_signatures(trees)
+    ref["nested"] = {q: sorted({n.name for n in ast.walk(f) if isinstance(n, FUNC) and n is not f}) for m, tree in trees.items() for q, f in top_functions(tree, m)}
     roles = {}
     for m, tree in trees.items():
         normalise(tree, m, ref=ref)
